@@ -363,7 +363,9 @@ class SchemaBuilder(
         )
         if flattened_schemas:
             return json_schema(
-                allOf=result + flattened_schemas, unevaluatedProperties=False
+                allOf=result + flattened_schemas,
+                # additional properties allowed: nothing to close
+                unevaluatedProperties=additional_properties is not False,
             )
         elif len(result) == 1:
             return result[0]
